@@ -418,6 +418,34 @@ def call_instance(inst):
     return float(h)
 
 
+LAYOUTS = {
+    "flat(4,)": lambda v: jnp.full((4,), v),
+    "dict{(2,),(1,),()}": lambda v: {"a": jnp.full((2,), v), "b": jnp.full((1,), v), "c": jnp.asarray(v)},
+    "tuple((1,),((2,),(1,)))": lambda v: (jnp.full((1,), v), (jnp.full((2,), v), jnp.full((1,), v))),
+}
+
+
+def halved(inst):
+    """four identical, independent copies of a scalar problem: the (Euclidean) norms of the library double, which is the
+    scalar instance with atol and rtol halved (sc halves, d0, d1, d2 double, nothing else depends on sc)"""
+    return dict(inst, atol=inst["atol"] / 2, rtol=inst["rtol"] / 2)
+
+
+def call_instance_copies(inst, layout):
+    """dt0_adaptive on four copies of the scalar instance, the state being a pytree with the given leaf partition"""
+    a0, a1, a2, b = (float(inst[k]) for k in ("a0", "a1", "a2", "b"))
+
+    def f(y, /, *, t):
+        return jax.tree_util.tree_map(lambda x: a0 + a1 * x + a2 * x * x + b * t, y)
+
+    vf = probdiffeq.ode(f)
+    with warnings.catch_warnings():
+        warnings.simplefilter("ignore")
+        h = ivpsolve.dt0_adaptive(vf, (LAYOUTS[layout](float(inst["y0"])),), float(inst["t0"]), error_contraction_rate=inst["p"],
+                                  rtol=float(inst["rtol"]), atol=float(inst["atol"]))
+    return float(h)
+
+
 def rel_err(a, b):
     if not (math.isfinite(a) and math.isfinite(b)):
         return float("inf")
